@@ -1,7 +1,7 @@
 from . import COMMON_TB, NOTE
 
 PROP = {
-    "modules": ["Proofs.C05", "Proofs.C05E2E", "Proofs.C05Spell"],
+    "modules": ["Proofs.C05", "Proofs.C05E2E", "Proofs.C05Spell", "Proofs.C05Verbatim"],
     "streams": [{"name": "scan"}, {"name": "val", "shards": 2}, {"name": "verbatim"}],
     "rule": "scan: under the DEFAULT delimiters every string of length<=5 (quick) / 6 (thorough) over { } % - \" space newline a, "
             "harvested test templates and their mutants, random bytes / UTF-8 / delimiter-dense sources up to 64 KiB (start "
